@@ -362,7 +362,8 @@ def _check_main(ctx, rep: Report):
                 if isinstance(kw.value, ast.Name) and kw.value.id == "force" and "force" in own_params:
                     continue   # plain forwarding of the caller's flag
                 nforce += 1
-                ok = short in allowed
+                from .base import site_allowed
+                ok = site_allowed(ctx, short, lambda s_: s_ in allowed)
                 rep.oblige("C08.FORCE", f"{short}:{ast.unparse(node.func)}", ok)
                 if not ok:
                     site = f"{fi.module.relpath}:{node.lineno}"
